@@ -1284,7 +1284,7 @@ func rulesC15(r *Run) {
 			errorDiscipline(r, "R3", fn)
 		}
 	}
-	r.Expect("R3", 30)
+	r.Expect("R3", 32)
 
 	r.Kind("R4", "K8")
 	ruleListQuery(r, "R4", m)
@@ -1449,6 +1449,73 @@ func ruleStreamClosed(r *Run, rule, key string) {
 		}
 	}
 	r.Check(rule, short+":stream-closed-on-every-exit", lit.Pos(), bad == "", "%s", orOK(bad, "close(results) on every exit of the producer"))
+	// D46: the close is reached only if the producer never waits for a reader that is gone. A consumer that has what it needs
+	// cancels its Context and stops reading; a send on the stream that is not one alternative of a select with a way out
+	// (`<-ctx.Done()` or default) then parks the producer for ever — the stream is never closed and, in this vault, the only
+	// connection is never given back. Every send on the stream inside the producer (nested callbacks included) has a way out.
+	{
+		badSend := ""
+		var sendPos token.Pos = lit.Pos()
+		sends := 0
+		var stack []ast.Node
+		ast.Inspect(lit.Body, func(n ast.Node) bool {
+			if n == nil {
+				stack = stack[:len(stack)-1]
+				return true
+			}
+			stack = append(stack, n)
+			snd, ok := n.(*ast.SendStmt)
+			if !ok || ObjOf(info, snd.Chan) != ch {
+				return true
+			}
+			sends++
+			wayOut := false
+			// the send must be the communication of a select clause whose select has a default or a receive from X.Done()
+			if len(stack) >= 3 {
+				if cc, ok := stack[len(stack)-2].(*ast.CommClause); ok && cc.Comm == ast.Stmt(snd) {
+					for k := len(stack) - 3; k >= 0; k-- {
+						sel, ok := stack[k].(*ast.SelectStmt)
+						if !ok {
+							continue
+						}
+						for _, c := range sel.Body.List {
+							oc := c.(*ast.CommClause)
+							if oc.Comm == nil {
+								wayOut = true
+								continue
+							}
+							var rx ast.Expr
+							switch x := oc.Comm.(type) {
+							case *ast.ExprStmt:
+								rx = x.X
+							case *ast.AssignStmt:
+								if len(x.Rhs) == 1 {
+									rx = x.Rhs[0]
+								}
+							}
+							if u, ok := ast.Unparen(rx).(*ast.UnaryExpr); ok && u.Op == token.ARROW {
+								if call, ok := ast.Unparen(u.X).(*ast.CallExpr); ok {
+									if se, ok := call.Fun.(*ast.SelectorExpr); ok && se.Sel.Name == "Done" {
+										wayOut = true
+									}
+								}
+							}
+						}
+						break
+					}
+				}
+			}
+			if !wayOut && badSend == "" {
+				badSend, sendPos = "the producer of "+short+"'s stream sends on it with nothing else to wait for: a consumer that cancelled and stopped reading leaves the producer parked on this send for ever — the stream is never closed and the connection it holds is never returned", snd.Pos()
+			}
+			return true
+		})
+		if sends == 0 {
+			r.Unresolved(rule, "sends on the stream of "+short)
+		} else {
+			r.Check(rule, short+":producer-never-waits-for-a-gone-reader", sendPos, badSend == "", "%s", orOK(badSend, "every send has a way out (ctx.Done or default)"))
+		}
+	}
 	// connection lifetime
 	var conn types.Object
 	ast.Inspect(lit.Body, func(n ast.Node) bool {
